@@ -551,6 +551,38 @@ func checkHeaderStrip(c *Ctx, rule string) {
 				}
 			}
 		}
+		// the same test written as membership in a package-level set of lower-cased names
+		for _, b := range fn.Blocks {
+			for i := range b.Succs {
+				a, ok := edgeAtom(Edge{b, i})
+				if !ok || a.Op != token.EQL || !isBoolTrue(a.Y) {
+					continue
+				}
+				var lk *ssa.Lookup
+				switch x := a.X.(type) {
+				case *ssa.Lookup:
+					lk = x
+				case *ssa.Extract:
+					if l2, ok := x.Tuple.(*ssa.Lookup); ok && x.Index == 1 {
+						lk = l2
+					}
+				}
+				if lk == nil {
+					continue
+				}
+				call, ok := lk.Index.(*ssa.Call)
+				if !ok || !calleeIs(call, "strings", "", "ToLower") {
+					continue
+				}
+				if u, ok := lk.X.(*ssa.UnOp); ok {
+					if g, ok := u.X.(*ssa.Global); ok {
+						for _, k := range p.globalMapKeys(g) {
+							stripped[k] = append(stripped[k], Edge{b, i})
+						}
+					}
+				}
+			}
+		}
 		h := loopHeaderOf(upd.Block())
 		for _, want := range []string{"authorization", "proxy-authorization", "cookie"} {
 			es := stripped[want]
@@ -585,4 +617,50 @@ func checkHeaderStrip(c *Ctx, rule string) {
 		c.Ok(rule, name+":name-canonicalised", p.InstrPos(upd), "key = http.CanonicalHeaderKey(name)")
 	}
 	c.Floor(rule, "header_copiers", n, 1)
+}
+
+// globalMapKeys: the constant string keys of a package-level map that is built once in the package initialiser
+// and never written elsewhere in the module (nil when it is written elsewhere or a key is not constant).
+func (p *Program) globalMapKeys(g *ssa.Global) []string {
+	var keys []string
+	nStores := 0
+	for _, fn := range p.SrcFuncs {
+		for _, b := range fn.Blocks {
+			for _, ins := range b.Instrs {
+				switch x := ins.(type) {
+				case *ssa.Store:
+					if x.Addr == ssa.Value(g) {
+						nStores++
+						mm, ok := x.Val.(*ssa.MakeMap)
+						if !ok || fn.Name() != "init" {
+							return nil
+						}
+						for _, ref := range *mm.Referrers() {
+							if mu, ok := ref.(*ssa.MapUpdate); ok {
+								k, ok := constString(mu.Key)
+								if !ok {
+									return nil
+								}
+								keys = append(keys, k)
+							}
+						}
+					}
+				case *ssa.MapUpdate:
+					if u, ok := x.Map.(*ssa.UnOp); ok && u.X == ssa.Value(g) {
+						return nil // written after initialisation
+					}
+				case *ssa.Call:
+					if bi, ok := x.Call.Value.(*ssa.Builtin); ok && (bi.Name() == "delete" || bi.Name() == "clear") && len(x.Call.Args) > 0 {
+						if u, ok := x.Call.Args[0].(*ssa.UnOp); ok && u.X == ssa.Value(g) {
+							return nil
+						}
+					}
+				}
+			}
+		}
+	}
+	if nStores != 1 {
+		return nil
+	}
+	return keys
 }
